@@ -82,6 +82,7 @@ func c16Range(r *ev.Run, first, last int) {
 	}
 	// the conntrack zone-from-register form embeds the word
 	fh, _ := of.FindFieldHeaderByName("NXM_NX_REG3", false)
+	c16Histories(r, first, n, 3, bad)
 	ct := of.NewNXActionConnTrack().ZoneRange(fh, of.NewNXRange(first, last))
 	if b, err := ct.MarshalBinary(); err != nil || len(b) < 18 || binary.BigEndian.Uint16(b[16:]) != word {
 		bad("ct-zone-word", fmt.Sprintf("conntrack ZoneRange([%d..%d]) does not carry %#04x at offset 16", first, last, word))
@@ -130,6 +131,58 @@ func c16Word(r *ev.Run, ofs, nbits int, missing map[string]bool) {
 	}
 	if g := of.NewNXRange(ofs, ofs+nbits-1).ToOfsBits(); g != word {
 		bad("range-word-start-end", fmt.Sprintf("NewNXRange(%d,%d).ToOfsBits() = %#04x, want %#04x", ofs, ofs+nbits-1, g, word))
+	}
+	c16Histories(r, ofs, nbits, 2, bad)
+}
+
+// c16Obs are the observations a range object offers; none of them may change what a later one returns.
+var c16Obs = []struct {
+	name string
+	f    func(*of.NXRange) uint64
+}{
+	{"ToUint32Mask", func(n *of.NXRange) uint64 { return uint64(n.ToUint32Mask()) }},
+	{"ToOfsBits", func(n *of.NXRange) uint64 { return uint64(n.ToOfsBits()) }},
+	{"GetOfs", func(n *of.NXRange) uint64 { return uint64(n.GetOfs()) }},
+	{"GetNbits", func(n *of.NXRange) uint64 { return uint64(n.GetNbits()) }},
+}
+
+// c16Histories runs every sequence of observations up to the given depth on one range object (built
+// both ways) and compares each result with the one a fresh object gives: history independence.
+func c16Histories(r *ev.Run, ofs, nbits, depth int, bad func(clause, what string)) {
+	mk := []func() *of.NXRange{
+		func() *of.NXRange { return of.NewNXRangeByOfsNBits(ofs, nbits) },
+		func() *of.NXRange { return of.NewNXRange(ofs, ofs+nbits-1) },
+	}
+	for ci, c := range mk {
+		var fresh [4]uint64
+		for i, o := range c16Obs {
+			fresh[i] = o.f(c())
+		}
+		seq := make([]int, depth)
+		var rec func(d int)
+		rec = func(d int) {
+			if d == depth {
+				obj := c()
+				for k, oi := range seq {
+					if g := c16Obs[oi].f(obj); g != fresh[oi] {
+						names := ""
+						for _, x := range seq[:k+1] {
+							names += c16Obs[x].name + ";"
+						}
+						bad("history:"+c16Obs[oi].name, fmt.Sprintf("range (offset %d, width %d, constructor %d): %s returns %#x after the calls %s on the same object, %#x on a fresh one", ofs, nbits, ci, c16Obs[oi].name, g, names, fresh[oi]))
+						return
+					}
+				}
+				r.Add("transitions", int64(depth))
+				r.Add("observation_histories", 1)
+				return
+			}
+			for i := range c16Obs {
+				seq[d] = i
+				rec(d + 1)
+			}
+		}
+		rec(0)
 	}
 }
 
